@@ -423,9 +423,13 @@ func cmdCheck(args []string) int {
 		"wall_s":     round2(wall),
 		"violations": violations,
 	}
-	os.MkdirAll(filepath.Join(verifDir(), "evidence"), 0o755)
+	evDir := filepath.Join(verifDir(), "evidence")
+	if d := os.Getenv("VERIF_EVIDENCE_DIR"); d != "" {
+		evDir = d // runs against a scratch copy of the repository (tools/mutcheck.sh) must not touch the committed evidence
+	}
+	os.MkdirAll(evDir, 0o755)
 	js, _ := json.MarshalIndent(ev, "", " ")
-	if err := os.WriteFile(filepath.Join(verifDir(), "evidence", *prop+".json"), js, 0o644); err != nil {
+	if err := os.WriteFile(filepath.Join(evDir, *prop+".json"), js, 0o644); err != nil {
 		fmt.Fprintln(os.Stderr, err)
 		return 2
 	}
